@@ -99,6 +99,7 @@ fn main() {
     "storage_faults" => storage::faults(&cex),
     "document_ops" => docops::document_ops(&cex),
     "kani" => kani_replay(&cex),
+    "panic_sweep" => panic_sweep(),
     "selftest" => selftest(),
     _ => Err(format!("unknown scenario {scenario}")),
   };
@@ -123,6 +124,51 @@ pub fn u(cex: &Value, key: &str) -> u64 {
 }
 pub fn b(cex: &Value, key: &str) -> bool {
   cex.get(key).and_then(Value::as_bool).unwrap_or(false)
+}
+
+/// C05: the panic-only view of every battery
+fn panic_sweep() -> Result<String, String> {
+  let empty = Value::Object(Default::default());
+  let all: Vec<(&str, fn(&Value) -> Result<String, String>)> = vec![
+    ("jws_binding", jws::binding),
+    ("jws_policy", jws::policy),
+    ("jws_charset", jws::charset),
+    ("did_syntax", did::syntax),
+    ("timestamp", ts::timestamp),
+    ("state_metadata", iota::state_metadata),
+    ("iota_did", iota::iota_did),
+    ("credential_validation", cred::credential_validation),
+    ("presentation_validation", cred::presentation_validation),
+    ("claims", cred::claims),
+    ("sd_jwt", sdjwt::sd_jwt),
+    ("revocation", revocation::bitmap),
+    ("jwk", jwk::jwk),
+    ("collections", coll::collections),
+    ("document_ops", docops::document_ops),
+    ("storage_faults", storage::faults),
+    ("statuslist_oneway", statuslist::oneway),
+  ];
+  let mut found = Vec::new();
+  for (name, f) in all {
+    if let Ok(what) = f(&empty) {
+      if what.contains("panicked") || what.contains("[panic") || what.contains("-panic]") {
+        found.push(format!("{name}: {}", &what[..what.len().min(200)]));
+      }
+    }
+  }
+  // status list: out-of-range access must be an error
+  for s in ["statuslist_get", "statuslist_set"] {
+    if let Ok(what) = statuslist::run(s, &serde_json::json!({"idx": u64::MAX, "k": u64::MAX, "nbytes": 1})) {
+      if what.contains("panicked") {
+        found.push(format!("{s}: {what}"));
+      }
+    }
+  }
+  if found.is_empty() {
+    Err("no battery observes a panic".to_owned())
+  } else {
+    Ok(found.join("; "))
+  }
 }
 
 fn selftest() -> Result<String, String> {
